@@ -95,6 +95,11 @@ CHECKS = {
             "Every zoneinfo zone (thorough: also every pytz zone and 20 windows; quick: a seed-rotated third of pytz zones and one rotated short window): well-formedness, RFC 5545 onset interpretation, the converted zone and regeneration vs. the source's offset and abbreviation at each breakpoint -1s/0/+1s and interval interior. "
             "Deviations are tolerated only if they equal the prediction of the open findings' model (onset written in the new offset's wall clock, name-only transitions invisible, short observances stepped over, 24h deltas).",
             "trusted: refmodel/rfc_tz.py (TZif reader, onset interpreter), refmodel/tree.py reader for the generated text, the simulation predictor in checks/c13.py; dateutil-built zones are matched by a weaker signature (deviation only where the component itself deviates or within one offset-delta of an edge)", "3/C13"),
+    "C12": ("bounded-exhaustive enumeration of consistent VTIMEZONE definitions (8 layouts x offsets x rule shapes x bounds x names) converted under both providers and evaluated at every onset +-1s against an RFC 5545 onset interpreter, plus explicit-state BFS over parse histories that share the process-wide zone cache",
+            "(A) ~4 700 (thorough ~9 000) consistent definitions: utcoffset, tzname (when given) and dst()==0 for STANDARD at every onset -1s/0/+1s up to 2037 and interval mid-points, for zoneinfo- and pytz-built zones. "
+            "(B) every history of <=2 (thorough 3) operations out of 19 (parse of calendar(TZID, definition, VTIMEZONE position), provider switch): each DTSTART of the calendar just parsed must have the offset of its own definition. "
+            "Open findings (process-wide cache, forward references, dateutil near-onset behaviour) are matched by a cache model / a windowed signature.",
+            "trusted: refmodel/rfc_tz.py interpreter and own yearly n-th-weekday expander; only consistent definitions; dateutil-built zones tolerated only within |offset|+|delta| of an onset for three named layouts", "3/C12"),
 }
 REASON_PENDING = "check under construction in this session; not claimed until it has been built, silenced on the unchanged tree and shown to detect a seeded change"
 ALL = [f"C{i:02d}" for i in range(1, 21)]
